@@ -2,7 +2,7 @@
 --overwrite is given."""
 import os
 
-from .. import gen, putcheck, run, snap, spec, trashgen, trashio, world
+from .. import gen, putcheck, run, snap, spec, trashgen, trashio, trashworld, world
 
 ID = 'C06'
 
@@ -29,7 +29,94 @@ def config(tier):
     }
 
 
+def gen_late_case(rng, index, tier):
+    """the destination comes into existence while trash-restore waits for the
+    reply at its prompt (the user recreated the file in another terminal, a
+    second trash-restore got there first): what counts is the state at the
+    moment of the move"""
+    L = gen.make_layout(rng, volumes=[], xdg='unset', trash_volumes_env=False)
+    tdir = L.home_trash()
+    D = L.home + '/docs'
+    L.add({'p': D, 't': 'd', 'm': 0o755})
+    L.cwd = D
+    ents = []
+    for i in range(rng.choice([1, 2])):
+        ents.append(trashgen.add_trashed(
+            L, rng, tdir, 'n%d' % i, D + '/late %d' % i,
+            '2012-0%d-01T10:00:00' % (i + 1), rng.choice(['file', 'tree', 'link_dangling']),
+            'c%dl%d' % (index, i), volume_rel='', home=True))
+    case = L.desc()
+    case['kind'] = 'late'
+    case['entries'] = ents
+    case['late_kind'] = rng.choice(['file', 'dir', 'link_dangling'])
+    case['pick'] = rng.randrange(len(ents))
+    return case
+
+
+def run_late(case):
+    out = {'violations': [], 'obs': {}, 'features': ['late-destination',
+                                                     'dest=' + case['late_kind']]}
+    obs = out['obs']
+    ents = case['entries']
+    with world.World(case) as w:
+        r0 = run.run(w, 'restore', [], stdin=b'')
+        lst = trashio.parse_restore_listing(r0.outtext())
+        e = ents[case['pick']]
+        idx = [i for i, d, p in lst if p == w.abs(e['loc'])]
+        if len(idx) != 1:
+            out['verdict'] = 'inconclusive'
+            out['why'] = 'listing does not show the crafted entries'
+            return out
+        dest = w.abs(e['loc'])
+
+        def occupy():
+            if case['late_kind'] == 'file':
+                with open(dest, 'w') as f:
+                    f.write('written while the prompt was waiting\n')
+            elif case['late_kind'] == 'dir':
+                os.mkdir(dest)
+            else:
+                os.symlink('nowhere', dest)
+        s0 = putcheck.norm_sig(w.snapshot())
+        r = run.run(w, 'restore', [], stdin=b'%d\n' % idx[0],
+                    at_prompt=(b'What file to restore', occupy))
+        s1 = putcheck.norm_sig(w.snapshot())
+        if r.timeout or not r.prompt_seen:
+            out['verdict'] = 'inconclusive'
+            out['why'] = 'prompt not seen'
+            return out
+        obs['late_destination_runs'] = 1
+        obs['occupied_no_overwrite'] = 1
+        st = trashworld.entry_state(s0, s1, e)
+        import stat as _st
+        m = os.lstat(dest).st_mode
+        kept = (case['late_kind'] == 'file' and _st.S_ISREG(m) and
+                open(dest).read().startswith('written while')) or \
+            (case['late_kind'] == 'dir' and _st.S_ISDIR(m) and not os.listdir(dest)) or \
+            (case['late_kind'] == 'link_dangling' and _st.S_ISLNK(m) and
+             os.readlink(dest) == 'nowhere')
+        if not kept:
+            out['violations'].append({
+                'mechanism': 'clobbered-a-destination-that-appeared-before-the-reply/' +
+                case['late_kind'], 'detail': {'run': r.brief(), 'state': st}})
+        elif st != 'intact':
+            out['violations'].append({
+                'mechanism': 'pair-not-intact-after-refusal/late-' + case['late_kind'],
+                'detail': {'run': r.brief(), 'state': st}})
+        elif r.exit == 0:
+            out['violations'].append({
+                'mechanism': 'exit0-after-refusal/late-' + case['late_kind'],
+                'detail': {'run': r.brief()}})
+        else:
+            obs['left_intact'] = 1
+    out['nontrivial'] = True
+    out['verdict'] = 'violation' if out['violations'] else 'ok'
+    return out
+
+
 def gen_case(rng, index, tier):
+    if index % 25 == 9:
+        return gen_late_case(rng, index, tier)
     vols = rng.choice([[], ['v1']])
     L = gen.make_layout(rng, volumes=vols, xdg='unset',
                         top_states={'v1': 'sticky'}, alt_states={},
@@ -140,6 +227,8 @@ def gen_case(rng, index, tier):
 
 
 def run_case(case):
+    if case.get('kind') == 'late':
+        return run_late(case)
     out = {'violations': [], 'obs': {}, 'features': []}
     obs = out['obs']
     ents = case['entries']
